@@ -53,6 +53,16 @@ def check_subseq(n, mask, alphabet):
     got = subseq_from_mask(mask, parent)
     if list(got) != sub:
         return f"subseq_from_mask({bin(mask)}, {parent}) = {got}, expected {sub}"
+    if got is parent:
+        return f"subseq_from_mask({bin(mask)}, {parent}) returns the caller's own parent object"
+    if isinstance(got, list) and got:
+        # the caller edits what it got back, then encodes the edited subsequence against the same parent
+        kept = got[1:]
+        del got[0]
+        first = (mask & -mask)
+        if list(parent) != [alphabet(i) for i in range(n)] or mask_from_subseq(kept, parent) != mask & ~first:
+            return (f"after deleting the first element of the list returned by subseq_from_mask({bin(mask)}, ...) the parent is "
+                    f"{parent} and the shortened subsequence encodes to {bin(mask_from_subseq(kept, parent))}, expected {bin(mask & ~first)}")
     back = mask_from_subseq(sub, parent)
     if back != mask:
         return f"mask_from_subseq({sub}, {parent}) = {bin(back)}, expected {bin(mask)}"
